@@ -697,6 +697,7 @@ def run(ctx):
 
 
 SELFTEST = [
+    ('hankel-rows-by-repetition', 'pyerrors/correlators.py', '        array = np.empty([N, N], dtype="object")\n        new_content = []\n        for t in range(self.T):\n            new_content.append(array.copy())\n', '        new_content = [np.empty([N, N], dtype="object")] * self.T\n', 'C14-G4'),
     ('hankel-cutoff-off-by-one', 'pyerrors/correlators.py', "(t + 2 * (N - 1)) >= self.T", "(t + 2 * (N - 1)) > self.T", 'C14-D7'),
     ('benign-hankel-cutoff', 'pyerrors/correlators.py', "(t + 2 * (N - 1)) >= self.T", "t + 2 * N - 1 > self.T", 'BENIGN'),
     ('none-test-wrong-owner', 'pyerrors/correlators.py', "                if _check_for_none(self, self.content[t]) or _check_for_none(y, y.content[t]):\n                    newcontent.append(None)\n                else:\n                    newcontent.append(self.content[t] + y.content[t])", "                if _check_for_none(self, self.content[t]) or _check_for_none(self, y.content[t]):\n                    newcontent.append(None)\n                else:\n                    newcontent.append(self.content[t] + y.content[t])", 'C14-D10'),
